@@ -178,7 +178,8 @@ func getParentFromKey(sp interface{}, key string) (string, string, interface{}, 
 	// unescape chars in key, e.g. "{}" from path params
 	pth, _ := url.PathUnescape(key[1:])
 
-	parent, entry := path.Dir(pth), path.Base(pth)
+	// the parent is addressed by its JSON pointer; the entry is the decoded name of the child in its holder
+	parent, entry := path.Dir(pth), jsonpointer.Unescape(path.Base(pth))
 	debugLog("getting schema holder at: %s, with entry: %s", parent, entry)
 
 	pptr, err := jsonpointer.New(parent)
